@@ -37,8 +37,15 @@ def classify(prob):
     return "diff:" + c.split()[0]
 
 
+ENGINE = dict(compared=0, exact=0)
+
+
 def snap_oracle(label, text, r):
     vlib.check_snapshots(r, r["opts"].get("pagesize", 1024))
+    if r.get("snaps") and not r.get("error"):
+        c, e = vlib.engine_corr(r, r["opts"].get("pagesize", 1024))
+        ENGINE["compared"] += c
+        ENGINE["exact"] += e
 
 
 def history_oracle(rep, cases, opts_of, rundir, profiles=("debug",), on_result=snap_oracle, max_report=3,
@@ -148,6 +155,9 @@ def cases_c01(tier, seed):
         cases.append(("g4 seed=%d" % (seed * 1000 + i), gen.g4(seed * 1000 + i)))
     for i in range(10 * n):
         cases.append(("g5 seed=%d" % (seed * 1000 + i), gen.g5(seed * 1000 + i)))
+    for i in range(12 * n):
+        cases.append(("g1e seed=%d" % (seed * 1000 + 700 + i), gen.g1(seed * 1000 + 700 + i, engine=True)))
+        cases.append(("g4e seed=%d" % (seed * 1000 + 700 + i), gen.g4(seed * 1000 + 700 + i, engine=True)))
     cases.append(("gmis", gen.gmis(seed)))
     # shape enumeration (G3)
     cases += gen.g3_edge(16, 200)
@@ -203,6 +213,8 @@ def history_property(prop, tier, seed, cases, opts_of, rule, on_result=snap_orac
         rep.cov["traces_validated_against_impl"] = rep.cov["evaluations"]
         rep.cov["failed_cases"] = failed
         rep.cov.update(COUNTERS.pop(prop, {}))
+        rep.cov["engine_model_commits_compared_page_exact"] = ENGINE["compared"]
+        rep.cov["engine_model_commits_identical"] = ENGINE["exact"]
         fill_proof_cov(rep, gate, trusted or TRUSTED_COMMON)
         if level == "translation_validation":
             rep.cov["programs"] = rep.cov["evaluations"]
@@ -305,13 +317,52 @@ def cases_c05(tier, seed):
         cases.append(("g2 seed=%d" % (seed * 1000 + 500 + i), gen.g2(seed * 1000 + 500 + i)))
     for i in range(10 * n):
         cases.append(("g5 seed=%d" % (seed * 1000 + 500 + i), gen.g5(seed * 1000 + 500 + i)))
+    for i in range(20 * n):
+        cases.append(("g4e seed=%d" % (seed * 1000 + 800 + i), gen.g4(seed * 1000 + 800 + i, engine=True)))
+        cases.append(("g1e seed=%d" % (seed * 1000 + 800 + i), gen.g1(seed * 1000 + 800 + i, engine=True)))
     rng = random.Random(seed + 5)
     allr = gen.g3_ranges(24, 200, (3, 6, 11, 17))
     cases += rng.sample(allr, 60 if tier == "quick" else len(allr))
     cases += gen.g3_edge(16, 200)
     deep = gen.g3_deep(20, 300)
     cases += rng.sample(deep, 50) if tier == "quick" else deep
+    mixed = gen.g3_mixed(20, 300, 3, True) + gen.g3_mixed(20, 300, 3, False)
+    cases += rng.sample(mixed, 90) if tier == "quick" else mixed + gen.g3_mixed(26, 300, 2, True)
     return cases
+
+
+def c05_growth(rep, rd, b):
+    """file growth: commits that need more than one 8 MiB extension step at once; afterwards the header's high-water
+    mark must lie inside the file, the library's own check must pass (strict mode) and every value must read back"""
+    import re
+    failed = 0
+    d = rd.sub()
+    for (ps, np_, vs, count, per) in ((4096, 4, 50000, 440, 220), (1024, 32, 30000, 600, 300)):
+        dbp = os.path.join(d, "grow.db")
+        if os.path.exists(dbp):
+            os.remove(dbp)
+        rc, out = vlib.sh([vlib.harness_bin("release"), "grow", dbp, str(ps), str(np_), str(vs), str(count), str(per), "--strict"], timeout=900)
+        rep.count("c05 growth %d" % ps, "grow %d %d %d %d" % (ps, vs, count, per), True)
+        m = re.search(r"grow:ok n=(\d+) contents_ok=(\w+)", out)
+        bad = None
+        if not m or int(m.group(1)) != count or m.group(2) != "true":
+            bad = out.strip()[-300:]
+        elif os.path.exists(dbp):
+            rc2, sel = vlib.sh([vlib.MONITOR, "select", str(ps), dbp])
+            mm = re.search(r"np=(\d+)", sel)
+            flen = os.path.getsize(dbp)
+            if not mm:
+                bad = "model cannot select a header: " + sel.strip()[-200:]
+            elif int(mm.group(1)) * ps > flen:
+                bad = "the committed header says %s pages (%d bytes) but the file has only %d bytes" % (mm.group(1), int(mm.group(1)) * ps, flen)
+        if os.path.exists(dbp):
+            os.remove(dbp)
+        if bad:
+            failed += 1
+            rep.violation("growth by more than one extension step in one commit (pagesize %d, %d x %d bytes, %d per transaction): %s" % (ps, count, vs, per, bad),
+                          dict(kind="growth", property="C05", pagesize=ps, num_pages=np_, value_size=vs, count=count, per_tx=per,
+                               how="harness grow <db> <pagesize> <num_pages> <value_size> <count> <per_tx> --strict"))
+    return failed
 
 
 def check_c05(tier, seed):
@@ -321,8 +372,9 @@ def check_c05(tier, seed):
         "shapes), G5 (overflow runs) + corpus; after EVERY commit the file is decoded by the extracted Gallina decoder: "
         "inv_check (partition of [2,np) into reachable / free-list run / free ids, separators, key order, element "
         "bounds), contents = reference, DB::check agrees; the hook event stream (begin/alloc/free/write/publish) must "
-        "be a run of the page-lifecycle machine and of the free-list model; non-trivial = > 5 calls",
-        on_result=pl_oracle("C05"))
+        "be a run of the page-lifecycle machine and of the free-list model; the write-path engine model must produce the same "
+        "pages; growth runs whose single commits need more than one 8 MiB extension step; non-trivial = > 5 calls",
+        on_result=pl_oracle("C05"), extra=c05_growth)
 
 
 def cases_c03(tier, seed):
@@ -494,7 +546,7 @@ def check_c12(tier, seed):
     images = 0
     try:
         if b.cargo_ok and b.extract_ok:
-            counts = [0, 1, 2, 3, 5, 6] if tier == "quick" else list(range(0, 41, 1))
+            counts = [0, 1, 2, 3, 6] if tier == "quick" else list(range(0, 41, 1))
             vals_quick = lambda o: [(o + 1) & 0xff, o ^ 0x80, 0x00, 0xff]
             jobs = []
             for n in counts:
@@ -516,7 +568,7 @@ def check_c12(tier, seed):
                 newest = 1 if "slot=1" in out else 0
                 muts = []
                 meta = []
-                stride = 1 if (tier == "thorough" or n in (0, 2)) else 3
+                stride = 1 if (tier == "thorough" or n == 2) else 5
                 for slot in (0, 1):
                     for off in list(range(0, 128)) + list(range(128, P, stride)):
                         o = img[slot * P + off]
@@ -1016,24 +1068,30 @@ def c10_oracle(label, text, r):
     hw = series
     bad = None
     warm = 40
-    if pin:
+    if pin == "chain":
+        # some reader is open at every writer begin, each for 25 commits: pages must still be released as the oldest reader
+        # moves on, so the file stops growing once the chain is in steady state
+        half = hw[n // 2]
+        if hw[-1] > half * 1.2 + 8:
+            bad = "overlapping readers (each open for 25 commits): file grows without bound, %d pages at commit %d, %d at the end" % (half, n // 2, hw[-1])
+    elif pin:
         a, b_ = pin
         settle = b_ + 12
-        if hw[a] > hw[warm] * 1.15 + 4 and meta["workload"] in ("fixed1", "fixedN", "bdel"):
+        if hw[a] > hw[warm] * 1.15 + 4 and meta["workload"] in ("fixed1", "fixedN", "bdel", "bdelN"):
             bad = "file grew from %d to %d pages between commits %d and %d although live data is constant and no reader was open" % (hw[warm], hw[a], warm, a)
-        elif hw[-1] > hw[settle] * 1.05 + 4 and meta["workload"] in ("fixed1", "fixedN", "bdel"):
+        elif hw[-1] > hw[settle] * 1.05 + 4 and meta["workload"] in ("fixed1", "fixedN", "bdel", "bdelN"):
             bad = "file keeps growing after the pinned reader closed: %d pages at commit %d, %d at the end" % (hw[settle], settle, hw[-1])
         elif hw[b_ - 1] <= hw[a] and meta["workload"] == "fixedN":
             pass                        # (a pinned reader usually forces growth; not required)
     else:
-        if hw[-1] > hw[warm] * 1.15 + 4 and meta["workload"] in ("fixed1", "fixedN", "bdel"):
+        if hw[-1] > hw[warm] * 1.15 + 4 and meta["workload"] in ("fixed1", "fixedN", "bdel", "bdelN"):
             bad = "file grew from %d to %d pages after warm-up although live data is constant" % (hw[warm], hw[-1])
-    if not bad and meta["workload"] == "var":
+    if not bad and meta["workload"] == "var" and pin != "chain":
         third = hw[2 * n // 3]
         if hw[-1] > third * 1.25 + 8:
             bad = "variable-size workload: file still growing in the last third (%d -> %d pages)" % (third, hw[-1])
-        if hw[-1] > 40 * 6 + 60:
-            bad = "variable-size workload: %d pages for at most 40 keys of <= 3000 bytes" % hw[-1]
+        if not pin and hw[-1] > 40 * 6 + 60:
+            bad = "variable-size workload without a pinned reader: %d pages for at most 40 keys of <= 3000 bytes" % hw[-1]
     if bad:
         r["checks_bad"].append((len(r["cmds"]) - 1, "high-water mark series (decoded from every committed header)", "plateau", bad))
 
@@ -1043,8 +1101,8 @@ def cases_c10(tier, seed):
     n = 300 if q else 1500
     cases = []
     k = 0
-    for wl in ("fixed1", "fixedN", "var", "bdel"):
-        for (pin, reopen) in (((100, 150), 0), (None, 25), ((100, 150), 40)) if q else (((100, 150), 0), (None, 25), ((100, 150), 40), (None, 0), ((300, 900), 100)):
+    for wl in ("fixed1", "fixedN", "var", "bdel", "bdelN"):
+        for (pin, reopen) in (((100, 150), 0), (None, 25), ("chain", 0)) if q else (((100, 150), 0), (None, 25), ((100, 150), 40), (None, 0), ((300, 900), 100), ("chain", 0), ("chain", 50)):
             label = "g10 %s ntx=%d pin=%s reopen=%d seed=%d" % (wl, n, pin, reopen, seed * 10 + k)
             C10_META[label] = dict(workload=wl, ntx=n, pin=pin)
             cases.append((label, gen.g10(seed * 10 + k, wl, ntx=n, pin=pin, reopen_every=reopen)))
